@@ -37,6 +37,7 @@ class Check:
         os.makedirs(self.workdir, exist_ok=True)
         self.known = [k for k in vlib.load_known() if k.get("property") == prop and k.get("status") == "known"]
         self._nviol = 0
+        self._confirmed_timeouts = 0
 
     # ---- model checking part -------------------------------------------------------------
     def model(self, name, module, cfg, expect="ok", workers=None, timeout=1500, note="", xmx="8g", coverage=True,
@@ -110,8 +111,10 @@ class Check:
                 info = _noreturn_info(tp, cid)
                 if info is not None:
                     conj = "NoReturn(%s,%s,after %s steps)" % (info.get("why"), info.get("detail"), info.get("steps_done"))
-                    if info.get("why") == "timeout" and cid in by_id:
-                        if not self._timeout_repeats(exe, by_id[cid], timeout_ms, env):
+                    if info.get("why") == "timeout" and cid in by_id and self._confirmed_timeouts < 2:
+                        if self._timeout_repeats(exe, by_id[cid], timeout_ms, env):
+                            self._confirmed_timeouts += 1   # once two hangs repeat alone, the others are reported as they are
+                        else:
                             self.ev.cov["unconfirmed_timeouts"] = self.ev.cov.get("unconfirmed_timeouts", 0) + 1
                             log("[trace] timeout of case %s did not repeat when run alone: not reported" % cid)
                             continue
@@ -134,12 +137,12 @@ class Check:
         import subprocess
         cp = os.path.join(self.workdir, "retry-case.ndjson")
         tp = os.path.join(self.workdir, "retry-trace.ndjson")
-        for attempt in range(2):
+        for attempt in range(1):
             vlib.write_cases([case], cp)
             e = dict(os.environ)
             if env:
                 e.update(env)
-            subprocess.run([exe, "--cases", cp, "--out", tp, "--timeout", str(3 * timeout_ms)], capture_output=True, env=e)
+            subprocess.run([exe, "--cases", cp, "--out", tp, "--timeout", str(2 * timeout_ms)], capture_output=True, env=e)
             if '"e":"NoReturn"' not in open(tp).read():
                 return False
         return True
